@@ -35,6 +35,16 @@ CONSTANTS
     KnownPats,    \*   (any other argument is computed directly by the same operators)
     Variant       \* "shipped" | "no_where" | "order_by_name" | "balance_raw" | "no_sortkey_group" | "print_keeps_null" | "journal_no_match"
 
+\* TLC evaluates a constant that the configuration overrides by a definition at EVERY reference; the aliases
+\* below are ordinary constant-level definitions, which TLC evaluates once at start-up
+HeadersV == Headers
+PoolV == Pool
+ShapesV == Shapes
+DirPoolV == DirPool
+PrintShapesV == PrintShapes
+KnownStringsV == KnownStrings
+KnownPatsV == KnownPats
+
 -----------------------------------------------------------------------------
 (* part 1a: strings *)
 Min2(a, b) == IF a < b THEN a ELSE b
@@ -57,15 +67,16 @@ StrLess0(a, b) ==
        ELSE LET i == SetMin(D) IN RankOf[Ch(a, i)] < RankOf[Ch(b, i)]
 
 \* patterns: [anch |-> BOOLEAN, s |-> literal]: re.search(('^' if anch) + s, x, IGNORECASE)
+FoldEq(c, d) == c = d \/ (c \in CharSet /\ d \in CharSet /\ FoldRank(c) = FoldRank(d))
 MatchAt(x, s, i) == /\ i + Len(s) - 1 <= Len(x)
-                    /\ \A k \in 1..Len(s) : FoldRank(Ch(x, i + k - 1)) = FoldRank(Ch(s, k))
+                    /\ \A k \in 1..Len(s) : FoldEq(Ch(x, i + k - 1), Ch(s, k))
 Matches0(x, p) == IF p.anch THEN MatchAt(x, p.s, 1)
                   ELSE \E i \in 1..(Len(x) - Len(p.s) + 1) : MatchAt(x, p.s, i)
 \* tabulated once for the known strings (TLC evaluates constant definitions at start-up)
-StrLessTab == [a \in KnownStrings, b \in KnownStrings |-> StrLess0(a, b)]
-StrLess(a, b) == IF a \in KnownStrings /\ b \in KnownStrings THEN StrLessTab[a, b] ELSE StrLess0(a, b)
-MatchTab == [x \in KnownStrings, p \in KnownPats |-> Matches0(x, p)]
-Matches(x, p) == IF x \in KnownStrings /\ p \in KnownPats THEN MatchTab[x, p] ELSE Matches0(x, p)
+StrLessTab == [a \in KnownStringsV, b \in KnownStringsV |-> StrLess0(a, b)]
+StrLess(a, b) == IF a \in KnownStringsV /\ b \in KnownStringsV THEN StrLessTab[a, b] ELSE StrLess0(a, b)
+MatchTab == [x \in KnownStringsV, p \in KnownPatsV |-> Matches0(x, p)]
+Matches(x, p) == IF x \in KnownStringsV /\ p \in KnownPatsV THEN MatchTab[x, p] ELSE Matches0(x, p)
 PatText(p) == (IF p.anch THEN "^" ELSE "") \o p.s
 
 (* part 1b: accounts *)
@@ -74,7 +85,7 @@ RootOf(a) == LET C == {i \in 1..Len(a) : Ch(a, i) = ":"}
              IN IF C = {} THEN a ELSE SubSeq(a, 1, SetMin(C) - 1)
 HasRootType(a) == \E i \in 1..5 : RootTypes[i] = RootOf(a)
 TypeIndex0(a) == (CHOOSE i \in 1..5 : RootTypes[i] = RootOf(a)) - 1
-TypeIndexTab == [a \in {x \in KnownStrings : HasRootType(x)} |-> TypeIndex0(a)]
+TypeIndexTab == [a \in {x \in KnownStringsV : HasRootType(x)} |-> TypeIndex0(a)]
 TypeIndex(a) == IF a \in DOMAIN TypeIndexTab THEN TypeIndexTab[a] ELSE TypeIndex0(a)
 AccountSortKey(a) == <<TypeIndex(a), a>>
 SortKeyLess(x, y) == x[1] < y[1] \/ (x[1] = y[1] /\ StrLess(x[2], y[2]))
@@ -91,10 +102,11 @@ ApplyF(f, l) == CASE f = "none" -> l [] f = "units" -> Units(l) [] f = "cost" ->
 RECURSIVE SumNum(_, _)       \* sum of lots[i][3] over the index set I
 SumNum(lots, I) == IF I = {} THEN 0 ELSE LET i == CHOOSE i \in I : TRUE IN lots[i][3] + SumNum(lots, I \ {i})
 \* declarative: the inventory holding a sequence of lots
-InvOfLots(lots) ==
-    LET keys == {LotKey(lots[i]) : i \in DOMAIN lots}
-        tot(k) == SumNum(lots, {i \in DOMAIN lots : LotKey(lots[i]) = k})
+InvOfIdx(lots, I) ==
+    LET keys == {LotKey(lots[i]) : i \in I}
+        tot(k) == SumNum(lots, {i \in I : LotKey(lots[i]) = k})
     IN {<<k[1], k[2], tot(k)>> : k \in {k \in keys : tot(k) # 0}}
+InvOfLots(lots) == InvOfIdx(lots, DOMAIN lots)
 IsInventory(inv) == /\ \A l \in inv : l[3] # 0
                     /\ \A l1 \in inv, l2 \in inv : LotKey(l1) = LotKey(l2) => l1 = l2
 RECURSIVE SetToSeq(_)
@@ -115,7 +127,7 @@ InvAdd(inv, l) ==
 (* part 2: rows and three-valued expressions.
    A row is a record; optional string attributes are <<>> (NULL) or <<s>>.
      directive rows : type, date (yyyymmdd), flag, payee, narration, accounts (set)
-     posting rows   : the same attributes of the parent transaction + account, lot
+     posting rows   : the same attributes of the parent transaction + account, lot, currency (of the raw position)
    Expressions:  [k |-> "true"]                                     (clause absent)
                  [k |-> "cmp", col, op, v, lit]     col in year date type flag payee narration account currency number
                  [k |-> "match", col, p]            col ~ pattern
@@ -132,7 +144,7 @@ ColVal(r, c) ==
       [] c = "payee" -> r.payee
       [] c = "narration" -> r.narration
       [] c = "account" -> <<r.account>>
-      [] c = "currency" -> <<r.lot[1]>>
+      [] c = "currency" -> <<r.currency>>
       [] c = "number" -> <<r.lot[3]>>
 Cmp(op, a, b) ==
     CASE op = "=" -> a = b
@@ -163,16 +175,16 @@ HasClauses(fc) == fc.open # <<>> \/ fc.close.k # "none" \/ fc.clear
 \* the postings table of a ledger (sequence of pool indices): one row per posting, in ledger order
 PostingRows(led) ==
     [i \in 1..Len(led) |->
-        LET p == Pool[led[i]]
-            h == Headers[p.txn]
+        LET p == PoolV[led[i]]
+            h == HeadersV[p.txn]
         IN [type |-> "transaction", date |-> h.date, flag |-> h.flag, payee |-> h.payee, narration |-> h.narration,
-            accounts |-> {Pool[led[j]].account : j \in {j \in 1..Len(led) : Pool[led[j]].txn = p.txn}},
-            account |-> p.account, lot |-> p.lot]]
-DirRows(led) == [i \in 1..Len(led) |-> DirPool[led[i]]]
+            accounts |-> {PoolV[led[j]].account : j \in {j \in 1..Len(led) : PoolV[led[j]].txn = p.txn}},
+            account |-> p.account, lot |-> p.lot, currency |-> p.lot[1]]]
+DirRows(led) == [i \in 1..Len(led) |-> DirPoolV[led[i]]]
 
-Ledgers == UNION {{s \in [1..n -> 1..Len(Pool)] : \A i \in 1..(n - 1) : Pool[s[i]].txn <= Pool[s[i + 1]].txn}
+Ledgers == UNION {{s \in [1..n -> 1..Len(PoolV)] : \A i \in 1..(n - 1) : PoolV[s[i]].txn <= PoolV[s[i + 1]].txn}
                   : n \in 0..MaxPostings}
-DirLedgers == UNION {{s \in [1..n -> 1..Len(DirPool)] : \A i \in 1..(n - 1) : DirPool[s[i]].date <= DirPool[s[i + 1]].date}
+DirLedgers == UNION {{s \in [1..n -> 1..Len(DirPoolV)] : \A i \in 1..(n - 1) : DirPoolV[s[i]].date <= DirPoolV[s[i + 1]].date}
                      : n \in 0..MaxDirs}
 
 -----------------------------------------------------------------------------
@@ -188,8 +200,8 @@ AccountsInOrder(A) == [k \in 1..Cardinality(A) |-> CHOOSE a \in A : Cardinality(
 BalancesReport(f, sel) ==
     LET A == {sel[i].account : i \in DOMAIN sel}
         ord == AccountsInOrder(A)
-        lotsOf(a) == LET I == SelectIdx(sel, LAMBDA r : r.account = a) IN [k \in DOMAIN I |-> ApplyF(f, sel[I[k]].lot)]
-    IN [k \in DOMAIN ord |-> <<ord[k], InvOfLots(lotsOf(ord[k]))>>]
+        lots == [j \in DOMAIN sel |-> ApplyF(f, sel[j].lot)]
+    IN [k \in DOMAIN ord |-> <<ord[k], InvOfIdx(lots, {j \in DOMAIN sel : sel[j].account = ord[k]})>>]
 BalancesMeaning(s, rows) ==
     BalancesReport(s.f, Selected(rows, LAMBDA r : Eval3(s.from.expr, r) = "T" /\ Eval3(s.where, r) = "T"))
 
@@ -278,10 +290,11 @@ IsInvE(t) == \/ (t.k = "col" /\ t.n = "balance")
              \/ (t.k = "fn" /\ t.n \in {"units", "cost"} /\ IsInvE(t.a[1]))
 InSeq(x, s) == \E i \in DOMAIN s : s[i] = x
 IndexOf(x, s) == SetMin({i \in DOMAIN s : s[i] = x})
-RECURSIVE AppendNew(_, _)     \* append the expressions of es that s does not hold yet (hidden targets)
-AppendNew(s, es) == IF es = <<>> THEN s
-                    ELSE AppendNew(IF InSeq(Head(es), s) THEN s ELSE Append(s, Head(es)), Tail(es))
-AllTargets(q) == AppendNew(AppendNew(q.targets, q.group), q.order)
+\* the compiled target list: the targets, then the GROUP BY expressions that are not targets, then the ORDER BY
+\* expressions that are neither (hidden targets, dropped from the result at the end)
+AllTargets(q) ==
+    LET a1 == q.targets \o SelectSeq(q.group, LAMBDA e : ~InSeq(e, q.targets))
+    IN a1 \o SelectSeq(q.order, LAMBDA e : ~InSeq(e, a1))
 
 \* textwrap.shorten is the identity on strings without blank runs that fit; anything longer is outside the model
 MaxWidth(s, n) == IF s = <<>> THEN <<>> ELSE IF Len(s[1]) <= n THEN s ELSE <<"<shortened>">>
@@ -328,122 +341,122 @@ SortStable(acc, rest, idxs, all) ==
 (* part 4d / 5: the state machine.  One behaviour = one statement executed on one ledger.
 
    Compilation (Compiler._balances / _journal -> transform_* -> _select) is a function of the statement only, so
-   the compiled form of every statement of Shapes is tabulated once: targets with the hidden GROUP BY / ORDER BY
+   the compiled form of every statement of ShapesV is tabulated once: targets with the hidden GROUP BY / ORDER BY
    targets appended, which targets are aggregates, the target index of every ORDER BY expression. *)
 Compile(sel) ==
     LET all == AllTargets(sel) IN
     [sel |-> sel, all |-> all, nix |-> NonAggIdx(all), aix |-> AggIdx(all),
      oidx |-> [k \in DOMAIN sel.order |-> IndexOf(sel.order[k], all)],
      agg |-> IsAggregateQuery(sel), ntargets |-> Len(sel.targets)]
-QTab == [n \in DOMAIN Shapes |-> Compile(Expand(Shapes[n]))] \o <<>>
-PrintQTab == [n \in DOMAIN PrintShapes |->
-                Compile([targets |-> <<>>, from |-> PrintShapes[n].from, where |-> TrueE, group |-> <<>>, order |-> <<>>])] \o <<>>
+QTab == [n \in DOMAIN ShapesV |-> Compile(Expand(ShapesV[n]))] \o <<>>
+PrintQTab == [n \in DOMAIN PrintShapesV |->
+                Compile([targets |-> <<>>, from |-> PrintShapesV[n].from, where |-> TrueE, group |-> <<>>, order |-> <<>>])] \o <<>>
 
 VARIABLES
     tbl,      \* "postings" | "entries"
-    led,      \* the ledger: sequence of indices into Pool (postings) or DirPool (entries)
-    si,       \* index of the statement in Shapes / PrintShapes
+    ledger,      \* the ledger: sequence of indices into PoolV (postings) or DirPoolV (entries)
+    si,       \* index of the statement in ShapesV / PrintShapesV
     phase,    \* "stmt" -> "scan" -> "final" -> "sorted" -> "done"
-    i,        \* next row to scan
-    bal,      \* running balance of the row context
+    pos,        \* next row to scan
+    ctxbal,      \* running balance of the row context
     out,      \* result rows so far (non-aggregate) / kept directive indices (PRINT)
     gkeys,    \* aggregate query: group keys in order of first appearance
     gvals     \* aggregate query: per group, one inventory per aggregate target
-vars == <<tbl, led, si, phase, i, bal, out, gkeys, gvals>>
+vars == <<tbl, ledger, si, phase, pos, ctxbal, out, gkeys, gvals>>
 
-Stmt == IF tbl = "postings" THEN Shapes[si] ELSE PrintShapes[si]
-Rows == IF tbl = "postings" THEN PostingRows(led) ELSE DirRows(led)
+Stmt == IF tbl = "postings" THEN ShapesV[si] ELSE PrintShapesV[si]
+Rows == IF tbl = "postings" THEN PostingRows(ledger) ELSE DirRows(ledger)
 Q == IF tbl = "postings" THEN QTab[si] ELSE PrintQTab[si]       \* the compiled query (defined once phase # "stmt")
 
 Init ==
-    /\ \/ tbl = "postings" /\ led \in Ledgers /\ si \in 1..Len(Shapes)
-       \/ tbl = "entries" /\ led \in DirLedgers /\ si \in 1..Len(PrintShapes)
-    /\ phase = "stmt" /\ i = 1 /\ bal = {} /\ out = <<>> /\ gkeys = <<>> /\ gvals = <<>>
+    /\ \/ tbl = "postings" /\ ledger \in Ledgers /\ si \in 1..Len(ShapesV)
+       \/ tbl = "entries" /\ ledger \in DirLedgers /\ si \in 1..Len(PrintShapesV)
+    /\ phase = "stmt" /\ pos = 1 /\ ctxbal = {} /\ out = <<>> /\ gkeys = <<>> /\ gvals = <<>>
 
 \* Compiler._balances / _journal: rewrite into a SELECT, compile it
 Rewrite ==
     /\ phase = "stmt" /\ tbl = "postings"
     /\ phase' = "scan"
-    /\ UNCHANGED <<tbl, led, si, i, bal, out, gkeys, gvals>>
+    /\ UNCHANGED <<tbl, ledger, si, pos, ctxbal, out, gkeys, gvals>>
 \* Compiler._print: table = entries, compile the FROM expression
 CompilePrint ==
     /\ phase = "stmt" /\ tbl = "entries"
     /\ phase' = "scan"
-    /\ UNCHANGED <<tbl, led, si, i, bal, out, gkeys, gvals>>
+    /\ UNCHANGED <<tbl, ledger, si, pos, ctxbal, out, gkeys, gvals>>
 
 \* one iteration of the row loop
 ScanSkip(pass) ==
     /\ ~pass
-    /\ i' = i + 1
-    /\ UNCHANGED <<tbl, led, si, phase, bal, out, gkeys, gvals>>
+    /\ pos' = pos + 1
+    /\ UNCHANGED <<tbl, ledger, si, phase, ctxbal, out, gkeys, gvals>>
 ScanTakeRow(r, pass) ==      \* non-aggregate: evaluate the targets (the balance column adds the posting to the context)
     /\ pass /\ ~Q.agg
-    /\ LET b == InvAdd(bal, r.lot)
+    /\ LET b == InvAdd(ctxbal, r.lot)
            all == Q.all
-       IN /\ bal' = b
+       IN /\ ctxbal' = b
           /\ out' = Append(out, [j \in DOMAIN all |-> EvalT(all[j], r, b)])
-    /\ i' = i + 1
-    /\ UNCHANGED <<tbl, led, si, phase, gkeys, gvals>>
+    /\ pos' = pos + 1
+    /\ UNCHANGED <<tbl, ledger, si, phase, gkeys, gvals>>
 ScanTakeGroup(r, pass) ==    \* aggregate: find or allocate the group of the row's key, update its accumulators
     /\ pass /\ Q.agg
     /\ LET all == Q.all
            nix == Q.nix
            aix == Q.aix
-           key == [k \in DOMAIN nix |-> EvalT(all[nix[k]], r, bal)]
+           key == [k \in DOMAIN nix |-> EvalT(all[nix[k]], r, ctxbal)]
            isnew == ~InSeq(key, gkeys)
            keys2 == IF isnew THEN Append(gkeys, key) ELSE gkeys
            vals2 == IF isnew THEN Append(gvals, [k \in DOMAIN aix |-> {}]) ELSE gvals
            g == IndexOf(key, keys2)
        IN /\ gkeys' = keys2
-          /\ gvals' = [vals2 EXCEPT ![g] = [k \in DOMAIN aix |-> InvAdd(vals2[g][k], EvalT(all[aix[k]].a[1], r, bal))]]
-    /\ i' = i + 1
-    /\ UNCHANGED <<tbl, led, si, phase, bal, out>>
+          /\ gvals' = [vals2 EXCEPT ![g] = [k \in DOMAIN aix |-> InvAdd(vals2[g][k], EvalT(all[aix[k]].a[1], r, ctxbal))]]
+    /\ pos' = pos + 1
+    /\ UNCHANGED <<tbl, ledger, si, phase, ctxbal, out>>
 Scan ==
-    /\ phase = "scan" /\ tbl = "postings" /\ i <= Len(led)
-    /\ LET r == Rows[i]
+    /\ phase = "scan" /\ tbl = "postings" /\ pos <= Len(ledger)
+    /\ LET r == Rows[pos]
            pass == RowPasses(Q.sel, r)
        IN ScanSkip(pass) \/ ScanTakeRow(r, pass) \/ ScanTakeGroup(r, pass)
 \* finalize: one row per group, in order of first appearance
 Finalize ==
-    /\ phase = "scan" /\ tbl = "postings" /\ i > Len(led)
+    /\ phase = "scan" /\ tbl = "postings" /\ pos > Len(ledger)
     /\ out' = IF Q.agg
               THEN [g \in DOMAIN gkeys |->
                       [j \in DOMAIN Q.all |-> IF IsAgg(Q.all[j]) THEN gvals[g][IndexOf(j, Q.aix)]
                                               ELSE gkeys[g][IndexOf(j, Q.nix)]]]
               ELSE out
     /\ phase' = "final"
-    /\ UNCHANGED <<tbl, led, si, i, bal, gkeys, gvals>>
+    /\ UNCHANGED <<tbl, ledger, si, pos, ctxbal, gkeys, gvals>>
 \* ORDER BY: stable sort on the order expressions' target indexes
 Order ==
     /\ phase = "final"
     /\ out' = IF Q.oidx = <<>> THEN out ELSE SortStable(<<>>, out, Q.oidx, Q.all)
     /\ phase' = "sorted"
-    /\ UNCHANGED <<tbl, led, si, i, bal, gkeys, gvals>>
+    /\ UNCHANGED <<tbl, ledger, si, pos, ctxbal, gkeys, gvals>>
 \* drop the hidden targets
 Strip ==
     /\ phase = "sorted"
     /\ out' = [k \in DOMAIN out |-> SubSeq(out[k], 1, Q.ntargets)]
     /\ phase' = "done"
-    /\ UNCHANGED <<tbl, led, si, i, bal, gkeys, gvals>>
+    /\ UNCHANGED <<tbl, ledger, si, pos, ctxbal, gkeys, gvals>>
 
 \* execute_print: `if expr is None or expr(row): entries.append(row.entry)`
 PrintTruthy(v) == IF Variant = "print_keeps_null" THEN v # "F" ELSE v = "T"
 PrintKeep(keep) ==
     /\ keep
-    /\ out' = Append(out, i)
-    /\ i' = i + 1
-    /\ UNCHANGED <<tbl, led, si, phase, bal, gkeys, gvals>>
+    /\ out' = Append(out, pos)
+    /\ pos' = pos + 1
+    /\ UNCHANGED <<tbl, ledger, si, phase, ctxbal, gkeys, gvals>>
 PrintDrop(keep) ==
     /\ ~keep
-    /\ i' = i + 1
-    /\ UNCHANGED <<tbl, led, si, phase, bal, out, gkeys, gvals>>
+    /\ pos' = pos + 1
+    /\ UNCHANGED <<tbl, ledger, si, phase, ctxbal, out, gkeys, gvals>>
 PrintScan ==
-    /\ phase = "scan" /\ tbl = "entries" /\ i <= Len(led)
-    /\ LET keep == PrintTruthy(Eval3(Q.sel.from.expr, Rows[i])) IN PrintKeep(keep) \/ PrintDrop(keep)
+    /\ phase = "scan" /\ tbl = "entries" /\ pos <= Len(ledger)
+    /\ LET keep == PrintTruthy(Eval3(Q.sel.from.expr, Rows[pos])) IN PrintKeep(keep) \/ PrintDrop(keep)
 PrintEmit ==
-    /\ phase = "scan" /\ tbl = "entries" /\ i > Len(led)
+    /\ phase = "scan" /\ tbl = "entries" /\ pos > Len(ledger)
     /\ phase' = "done"
-    /\ UNCHANGED <<tbl, led, si, i, bal, out, gkeys, gvals>>
+    /\ UNCHANGED <<tbl, ledger, si, pos, ctxbal, out, gkeys, gvals>>
 
 Next == Rewrite \/ CompilePrint \/ Scan \/ Finalize \/ Order \/ Strip \/ PrintScan \/ PrintEmit
 Spec == Init /\ [][Next]_vars
@@ -457,7 +470,7 @@ Meaning ==
 DenoteIsMeaning == phase = "done" => out = Meaning
 
 \* the rewrite keeps the FROM clause (filter expression and OPEN / CLOSE / CLEAR) verbatim (a constant-level law)
-ExpansionKeepsFrom == \A n \in DOMAIN Shapes : QTab[n].sel.from = Shapes[n].from
+ExpansionKeepsFrom == \A n \in DOMAIN ShapesV : QTab[n].sel.from = ShapesV[n].from
 \* results are well formed: inventories are inventories, BALANCES lists an account once, in order
 WellFormed ==
     (phase = "done" /\ tbl = "postings") =>
